@@ -52,6 +52,28 @@ namespace c17
     return m;
   }
 
+  /// nx x ny quads with a scrambled cell numbering (cell (i,j) gets index perm[j*nx+i], perm = multiplication by a unit mod n, reversed)
+  inline std::unique_ptr<Mesh2> make_quads_scrambled(Index nx, Index ny)
+  {
+    Index ne[] = {(nx + 1) * (ny + 1), 0, nx * ny};
+    std::unique_ptr<Mesh2> m(new Mesh2(ne));
+    auto& vtx = m->get_vertex_set();
+    for(Index j = 0; j <= ny; ++j) for(Index i = 0; i <= nx; ++i)
+    { vtx[j * (nx + 1) + i][0] = double(i) / 4.0; vtx[j * (nx + 1) + i][1] = double(j) / 4.0; }
+    const Index n = nx * ny;
+    Index mul = 1;
+    for(Index k = n / 2 + 1; k < n; ++k) { Index a = k, b = n; while(b) { Index t = a % b; a = b; b = t; } if(a == 1) { mul = k; break; } }
+    auto& idx = m->template get_index_set<2, 0>();
+    for(Index j = 0; j < ny; ++j) for(Index i = 0; i < nx; ++i)
+    {
+      const Index c = n - 1 - ((j * nx + i) * mul) % n;
+      idx[c][0] = j * (nx + 1) + i; idx[c][1] = j * (nx + 1) + i + 1;
+      idx[c][2] = (j + 1) * (nx + 1) + i; idx[c][3] = (j + 1) * (nx + 1) + i + 1;
+    }
+    m->deduct_topology_from_top();
+    return m;
+  }
+
   /// fan of n triangles around vertex 0 (open fan: consecutive triangles share an edge, all share vertex 0)
   inline std::unique_ptr<MeshT> make_fan(Index n)
   {
@@ -109,11 +131,11 @@ namespace c17
   struct MeshCfg
   {
     int kind; Index a, b; uint64_t subset; bool all;
-    Index cells() const { return kind == 1 ? a * b : a; }
+    Index cells() const { return (kind == 1 || kind == 3) ? a * b : a; }
     std::string str() const
     {
       std::ostringstream o;
-      if(kind == 0) o << "chain(" << a << ")"; else if(kind == 1) o << "quads(" << a << "x" << b << ")"; else o << "fan(" << a << ")";
+      if(kind == 0) o << "chain(" << a << ")"; else if(kind == 1) o << "quads(" << a << "x" << b << ")"; else if(kind == 3) o << "quads-scrambled(" << a << "x" << b << ")"; else o << "fan(" << a << ")";
       if(!all) { o << " subset={"; bool f = true; for(Index i = 0; i < cells(); ++i) if((subset >> i) & 1u) { o << (f ? "" : ",") << i; f = false; } o << "}"; }
       return o.str();
     }
